@@ -3,20 +3,23 @@ import RedisVerif.Driver.Crc32
 import RedisVerif.Model.Wal
 
 /-
-  C10 sub-driver (stateful: `I` sets the base image, later ops refer to it).
+  C10 sub-driver (stateful: `I` sets the base DIRECTORY — every name of the listing with its
+  contents, WAL files and foreign files alike, in listing order; later ops refer to it, files are
+  addressed by their index in the listing).
     V <1|2>                                   → set the WAL format the code under test speaks (default 2)
     K <hex>                                   → CRC-32 of the bytes (differential test of Driver.crc32)
-    B <max> <n> {<ts> <crc> <hex>}*           → files written by the model rotator (no faults)
-    I <k> {<seq> <hex>}*                      → set base image
-    R                                         → recoverAll base
-    t <seq> <len>                             → recoverAll (base with file seq cut to len)
-    x <seq> <pos> <val>                       → recoverAll (base with one byte replaced)
-    a <seq> <hex>                             → recoverAll (base with bytes appended to file seq)
-    w <seq> <pos> <hex>                       → recoverAll (base with the bytes written over position pos.., clipped to the file)
-    ta <seq> <len> <hex>                      → recoverAll (base with file seq cut to len, then bytes appended)
-    T <T> <active|->                          → truncateBefore on base: deleted count + remaining seqs
-    F <t> <nbad> {<hex>}*                     → recoverAfter t on base; payloads listed do not deserialise
-    Fa <seq> <hex> <t> <nbad> {<hex>}*        → same on (base with bytes appended to file seq)
+    I <k> {<hexname> <hex>}*                  → set base directory
+    NA <max> <n> {<ts> <crc> <hex>}*          → a NEW rotator over the base directory (`WalRotator::new`), then
+                                                the appends: resulting directory + open file, or `crash`
+    R                                         → recover_all_entries of the base directory
+    t <idx> <len>                             → … with file idx cut to len
+    x <idx> <pos> <val>                       → … with one byte replaced
+    a <idx> <hex>                             → … with bytes appended
+    w <idx> <pos> <hex>                       → … with the bytes written over position pos.. (clipped to the file)
+    ta <idx> <len> <hex>                      → … cut to len, then bytes appended
+    T <T> <active hexname|->                  → truncate_before on the base directory: deleted count + remaining names
+    F <t> <nbad> {<hex>}*                     → recover_entries_after(t); payloads listed do not deserialise
+    Fa <idx> <hex> <t> <nbad> {<hex>}*        → same on (base with bytes appended to file idx)
 -/
 namespace RedisVerif.Driver.C10
 open RedisVerif RedisVerif.Driver RedisVerif.Wal
@@ -28,8 +31,8 @@ def showEntry (e : Entry) : String := s!"{e.ts} {e.crc} {hexOfBytes e.data}"
 def showEntries (es : List Entry) : String :=
   " ".intercalate (toString es.length :: es.map showEntry)
 
-def showImage (img : Image) : String :=
-  " ".intercalate (toString img.length :: img.map (fun p => s!"{p.1} {hexOfBytes p.2}"))
+def showDir (d : Dir) : String :=
+  " ".intercalate (toString d.length :: d.map (fun p => s!"{hexOfBytes p.1} {hexOfBytes p.2}"))
 
 def entryP : P Entry := do
   let ts ← nat
@@ -37,10 +40,9 @@ def entryP : P Entry := do
   let d ← bytesTok
   pure ⟨d, ts, c⟩
 
-def imageP : P Image := do
+def dirP : P Dir := do
   let k ← nat
-  let l ← repeatP k (do let s ← nat; let b ← bytesTok; pure (s, b))
-  pure (NMap.ofList l)
+  repeatP k (do let n ← bytesTok; let b ← bytesTok; pure (n, b))
 
 def allOk : Nat → Outcome := fun _ => .ok
 
@@ -50,10 +52,14 @@ def build (fmt : Format) (maxSize : Nat) (es : List Entry) : Rot :=
 
 structure St where
   fmt : Format := .v2
-  base : Image := []
+  base : Dir := []
 
-def modFile (img : Image) (seq : Nat) (f : Bytes → Bytes) : Image :=
-  img.map (fun p => if p.1 = seq then (p.1, f p.2) else p)
+/-- apply `f` to the contents of the file at listing index `idx` -/
+def modFile (d : Dir) (idx : Nat) (f : Bytes → Bytes) : Dir :=
+  d.zipIdx.map (fun (p, i) => if i = idx then (p.1, f p.2) else p)
+
+/-- the directory as recovery sees it -/
+def recImage (d : Dir) : Image := sortBySeq (walFiles d)
 
 /-- bincode of a `ReplicationDelta` starts with the key: u64 length, bytes (driver-side glue,
     only used to print which deltas came back) -/
@@ -73,14 +79,14 @@ inductive Op where
   | setFmt (v : Nat)
   | crcOf (b : Bytes)
   | build (max : Nat) (es : List Entry)
-  | setImage (img : Image)
+  | setImage (img : Dir)
   | recover
   | cut (seq len : Nat)
   | setByte (seq pos val : Nat)
   | appendBytes (seq : Nat) (b : Bytes)
   | overwrite (seq pos : Nat) (b : Bytes)
   | cutAppend (seq len : Nat) (b : Bytes)
-  | trunc (T : Nat) (active : Option Nat)
+  | trunc (T : Nat) (active : Option Name)
   | after (app : Option (Nat × Bytes)) (t : Nat) (bad : List Bytes)
 
 def opP : P Op := do
@@ -88,19 +94,27 @@ def opP : P Op := do
   match t with
   | "V" => do let v ← nat; pure (.setFmt v)
   | "K" => do let b ← bytesTok; pure (.crcOf b)
-  | "B" => do
+  | "NA" => do
     let m ← nat
     let n ← nat
     let es ← repeatP n entryP
     pure (.build m es)
-  | "I" => do let i ← imageP; pure (.setImage i)
+  | "I" => do let i ← dirP; pure (.setImage i)
   | "R" => pure .recover
   | "t" => do let s ← nat; let l ← nat; pure (.cut s l)
   | "x" => do let s ← nat; let p ← nat; let v ← nat; pure (.setByte s p v)
   | "a" => do let s ← nat; let b ← bytesTok; pure (.appendBytes s b)
   | "w" => do let s ← nat; let p ← nat; let b ← bytesTok; pure (.overwrite s p b)
   | "ta" => do let s ← nat; let l ← nat; let b ← bytesTok; pure (.cutAppend s l b)
-  | "T" => do let T ← nat; let a ← optNat; pure (.trunc T a)
+  | "T" => do
+    let T ← nat
+    let t ← tok
+    if t == "-" then pure (.trunc T none) else
+    match t.toList with
+    | 'x' :: cs => match parseHexBytes cs with
+      | some b => pure (.trunc T (some b))
+      | none => failure
+    | _ => failure
   | "F" => do
     let t ← nat
     let n ← nat
@@ -125,22 +139,23 @@ def step (st : St) (line : String) : St × String :=
     | .setFmt v => ({ st with fmt := if v = 1 then .v1 else .v2 }, s!"format {if v = 1 then 1 else 2}")
     | .crcOf b => (st, toString (crc b))
     | .build m es =>
-      let r := build fmt m es
-      (st, s!"{showImage (fullImage r.w.store)} cur={showOptNat r.cur} seq={r.seq}")
+      (st, match DRot.appendAll fmt m (DRot.new base) es with
+           | none => "crash"
+           | some r => s!"{showDir r.dir} cur={match r.cur with | none => "-" | some c => hexOfBytes (walName c)}")
     | .setImage i => ({ st with base := i }, s!"ok {i.length}")
-    | .recover => (st, showEntries (recoverAll fmt crc base))
-    | .cut s l => (st, showEntries (recoverAll fmt crc (modFile base s (fun b => b.take l))))
-    | .setByte s p v => (st, showEntries (recoverAll fmt crc (modFile base s (fun b => b.set p v))))
-    | .appendBytes s b => (st, showEntries (recoverAll fmt crc (modFile base s (fun x => x ++ b))))
-    | .overwrite s p b => (st, showEntries (recoverAll fmt crc (modFile base s (fun x => overwrite x p b))))
-    | .cutAppend s l b => (st, showEntries (recoverAll fmt crc (modFile base s (fun x => x.take l ++ b))))
+    | .recover => (st, showEntries (recoverAllD fmt crc base))
+    | .cut s l => (st, showEntries (recoverAllD fmt crc (modFile base s (fun b => b.take l))))
+    | .setByte s p v => (st, showEntries (recoverAllD fmt crc (modFile base s (fun b => b.set p v))))
+    | .appendBytes s b => (st, showEntries (recoverAllD fmt crc (modFile base s (fun x => x ++ b))))
+    | .overwrite s p b => (st, showEntries (recoverAllD fmt crc (modFile base s (fun x => overwrite x p b))))
+    | .cutAppend s l b => (st, showEntries (recoverAllD fmt crc (modFile base s (fun x => x.take l ++ b))))
     | .trunc T a =>
-      let r := truncateBefore fmt crc T a base
-      (st, s!"deleted={base.length - r.length} remain {" ".intercalate (r.map (fun p => toString p.1))}")
+      let r := truncateBeforeD fmt crc T a base
+      (st, s!"deleted={base.length - r.length} remain {" ".intercalate (r.map (fun p => hexOfBytes p.1))}")
     | .after app t bad =>
       let img := match app with
         | none => base
         | some (s, b) => modFile base s (fun x => x ++ b)
-      (st, showOptDeltas (recoverAfter fmt crc (deOf bad) t img))
+      (st, showOptDeltas (recoverAfter fmt crc (deOf bad) t (recImage img)))
 
 end RedisVerif.Driver.C10
